@@ -191,11 +191,21 @@ class Worker:
                                timeout=600)
             if r.returncode != 0:
                 return dict(c, status='no-build')
+            # own process group: a mutant that makes a test spin must not outlive the timeout (cargo's child would)
+            pr = subprocess.Popen(['cargo', 'test', '--offline', '--lib', '--', '--test-threads', '4'], cwd=self.dir, env=self.env,
+                                  stdout=subprocess.PIPE, stderr=subprocess.PIPE, text=True, start_new_session=True)
             try:
-                r = subprocess.run(['cargo', 'test', '--offline', '--lib', '--', '--test-threads', '4'], cwd=self.dir, env=self.env,
-                                   capture_output=True, text=True, timeout=300)
+                so, se = pr.communicate(timeout=300)
             except subprocess.TimeoutExpired:
+                import signal
+                os.killpg(pr.pid, signal.SIGKILL)
+                pr.communicate()
                 return dict(c, status='killed', by='timeout')
+
+            class _R:
+                pass
+            r = _R()
+            r.stdout, r.returncode = so, pr.returncode
             m = re.search(r'test result: (\w+)\. (\d+) passed; (\d+) failed', r.stdout)
             if not m or m.group(1) != 'ok':
                 failed = re.findall(r'^test (\S+) \.\.\. FAILED', r.stdout, re.M)
